@@ -19,6 +19,26 @@ DA_SUPPRESSIONS = {
 }
 
 
+# structural suppressions: (file, regex on the iterable of the for loop that binds the variable, position in the target)
+DA_LOOPVAR_SUPPRESSIONS = [
+    ('parso/python/parser.py', r'reversed\(list\(enumerate\(\w+\)\)\)', 0,
+     'loop over the parser stack, which always holds the file-level entry (PAR-9)'),
+]
+
+
+def _loopvar_suppressed(rel, f, var):
+    import re as _re
+    for srel, pattern, pos, why in DA_LOOPVAR_SUPPRESSIONS:
+        if srel != rel:
+            continue
+        for n in walk_own(f.node):
+            if isinstance(n, ast.For) and _re.fullmatch(pattern, norm(n.iter)):
+                tg = n.target.elts if isinstance(n.target, ast.Tuple) else [n.target]
+                if pos < len(tg) and isinstance(tg[pos], ast.Name) and tg[pos].id == var:
+                    return why
+    return None
+
+
 class NonEmpty:
     """Is a for-loop iterable known to yield at least once?"""
 
@@ -86,6 +106,10 @@ def da_rule(ctx, rep, modules, rule='DA'):
                 if key in DA_SUPPRESSIONS:
                     used_suppressions.add(key)
                     rep.skip(rule, rel, f.qual, 'read of %s' % var, DA_SUPPRESSIONS[key])
+                    continue
+                why_loop = _loopvar_suppressed(rel, f, var)
+                if why_loop:
+                    rep.skip(rule, rel, f.qual, 'read of %s' % var, why_loop)
                     continue
                 bad = True
                 x = xs[0]
